@@ -7,6 +7,7 @@ from __future__ import annotations
 
 import asyncio
 import itertools
+import json
 from fractions import Fraction
 from xml.sax.saxutils import escape
 
@@ -128,9 +129,12 @@ def _scpd(type_id, actions):
             f"<serviceStateTable>{svs}</serviceStateTable></scpd>")
 
 
-def _render(devices):
-    """devices: preorder list of {depth, type, services:[{type,url,actions}]} -> (description xml, {scpd url: xml})"""
+def _render(devices, share=False):
+    """devices: preorder list of {depth, type, services:[{type,url,actions}]} -> (description xml, {scpd url: xml}).
+    share: services whose SCPD documents are identical name ONE SCPD URL (gateways do that for WANIPConnection /
+    WANPPPConnection); which service an operation reaches must not depend on it."""
     scpds = {}
+    by_text = {}
     counter = itertools.count()
 
     def dev_xml(i):
@@ -138,9 +142,11 @@ def _render(devices):
         svc = []
         for s in d["services"]:
             k = next(counter)
-            scpds[f"http://gw:1900/scpd{k}.xml"] = _scpd(s["type"], s["actions"])
+            text = _scpd(s["type"], s["actions"])
+            ku = by_text.setdefault(text, k) if share else k
+            scpds[f"http://gw:1900/scpd{ku}.xml"] = text
             svc.append(f"<service><serviceType>{TYPES.get(s['type'], s['type'])}</serviceType>"
-                       f"<serviceId>urn:upnp-org:serviceId:S{k}</serviceId><SCPDURL>/scpd{k}.xml</SCPDURL>"
+                       f"<serviceId>urn:upnp-org:serviceId:S{k}</serviceId><SCPDURL>/scpd{ku}.xml</SCPDURL>"
                        f"<controlURL>/ctl/{s['url']}</controlURL><eventSubURL>/evt/{s['url']}</eventSubURL></service>")
         kids = []
         j = i + 1
@@ -357,7 +363,8 @@ class Plugin:
         devices = case["devices"]
         if not well_formed(devices):
             raise AssertionError("harness: configuration not renderable")
-        desc, scpds = _render(devices)
+        # every second configuration lets identical SCPD documents share one URL (decided by the case, reproducibly)
+        desc, scpds = _render(devices, share=(len(json.dumps(devices)) + case["t0"]) % 2 == 0)
         clock = {"t": case["t0"]}
         gw = _Gateway(desc, scpds, clock)
         device = await UpnpFactory(gw).async_create_device("http://gw:1900/desc.xml")
